@@ -314,15 +314,17 @@ impl Harness {
             Err((msg, loc)) => {
                 fault("heap_alloc_fail");
                 oplog(|| format!("  (table allocation failed: panic at {loc}: {msg})"));
-                let (idx_after, stores_after) = with(|w| (w.avail_idx_mem(q).unwrap_or(0), w.store_events));
-                if !cap.is_empty() || idx_after != idx_before || stores_after != stores_before || self.q.available_desc() != avail_desc_before {
+                // (Stores to queue memory that the available index does not cover - a ring slot
+                // written early, say - are not judged: the device cannot see them, and the
+                // monitors of in-flight descriptors and ring slots stay on.)
+                let idx_after = with(|w| w.avail_idx_mem(q).unwrap_or(0));
+                if !cap.is_empty() || idx_after != idx_before || self.q.available_desc() != avail_desc_before {
                     violation(
                         "refused-add-side-effect",
                         "add/indirect",
                         format!(
-                            "add that failed because its indirect table could not be allocated had side effects: {} hal events, available index {idx_before}->{idx_after}, {} stores, available_desc {}->{}",
+                            "add that failed because its indirect table could not be allocated had side effects: {} hal events, available index {idx_before}->{idx_after}, available_desc {}->{}",
                             cap.len(),
-                            stores_after - stores_before,
                             avail_desc_before,
                             self.q.available_desc()
                         ),
